@@ -12,6 +12,37 @@ fn stub_format(_a: std::fmt::Arguments<'_>) -> String {
 
 const N: usize = 4;
 
+// Reference model of BooleanBuffer::from_bitwise_binary_op for len <= 64: read the two bit ranges into words,
+// apply the word operation once, return a zero-offset buffer. Used as a STUB in the `*_via_contract` instances
+// below, whose operands take the u64-aligned fast path of the real function (which exceeds the memory cap): those
+// instances decide the Kleene kernels UNDER THE ASSUMPTION that from_bitwise_binary_op computes the bitwise
+// operation of its two bit ranges (its documented contract; decided for the unaligned path by the other
+// instances, which run the real function).
+fn ref_from_bitwise_binary_op<F, L, R>(left: L, lo: usize, right: R, ro: usize, len: usize, mut op: F) -> BooleanBuffer
+where
+    F: FnMut(u64, u64) -> u64,
+    L: AsRef<[u8]>,
+    R: AsRef<[u8]>,
+{
+    let (l, r) = (left.as_ref(), right.as_ref());
+    let mut a = 0u64;
+    let mut b = 0u64;
+    let mut i = 0;
+    while i < N {
+        if i < len {
+            if (l[(lo + i) / 8] >> ((lo + i) % 8)) & 1 == 1 {
+                a |= 1 << i;
+            }
+            if (r[(ro + i) / 8] >> ((ro + i) % 8)) & 1 == 1 {
+                b |= 1 << i;
+            }
+        }
+        i += 1;
+    }
+    let w = op(a, b);
+    BooleanBuffer::new(Buffer::from_vec(vec![w]), 0, len)
+}
+
 // a BooleanArray of N rows: value bits and validity bits are independent symbolic bytes viewed at the given
 // (concrete, per harness instance) bit offsets, so slots that are null can hold either value bit
 fn any_bool_array(with_nulls: bool, vo: usize, mo: usize) -> (BooleanArray, u8, u8) {
@@ -88,6 +119,27 @@ macro_rules! kleene_instance {
 }
 
 kleene_instance!(c12_or_kleene_both_nullable, true, true, true, [3, 5, 0, 1]);
+
+macro_rules! kleene_contract_instance {
+    ($name:ident, $is_or:expr, $offs:expr) => {
+        //@ tier: quick
+        //@ timeout: 900
+        //@ functions: arrow_arith::boolean::{or_kleene, and_kleene}, bitwise_quaternary_op_helper, BitAnd / BitOr for &BooleanBuffer (buffer_bin_and / buffer_bin_or)
+        //@ bound: both operands nullable, all four buffers at the same bit offset (the aligned case), 4 rows, value and validity bits arbitrary and independent: row i = Kleene OR/AND of the logical rows; unwind 8
+        //@ assume: BooleanBuffer::from_bitwise_binary_op returns the bitwise op of its two bit ranges (stubbed by a 20-line reference model: the real aligned fast path exceeds the memory cap)
+        //@ stub: alloc::fmt::format -> empty String; arrow_buffer::BooleanBuffer::from_bitwise_binary_op -> reference model
+        #[kani::proof]
+        #[kani::unwind(8)]
+        #[kani::stub(alloc::fmt::format, stub_format)]
+        #[kani::stub(arrow_buffer::BooleanBuffer::from_bitwise_binary_op, ref_from_bitwise_binary_op)]
+        fn $name() {
+            kleene_model($is_or, true, true, $offs);
+        }
+    };
+}
+
+kleene_contract_instance!(c12_or_kleene_via_contract_aligned, true, [3, 3, 3, 3]);
+kleene_contract_instance!(c12_and_kleene_via_contract_aligned, false, [3, 3, 3, 3]);
 kleene_instance!(c12_or_kleene_left_nullable, true, true, false, [0, 2, 1, 0]);
 kleene_instance!(c12_or_kleene_right_nullable, true, false, true, [1, 0, 0, 6]);
 kleene_instance!(c12_or_kleene_no_nulls, true, false, false, [2, 0, 7, 0]);
